@@ -521,8 +521,9 @@ def load_function(result=_AnyYAML, *args):     # type: ignore
     # add loaders for additional types
     if UserLoader._additional_classes is None:
         UserLoader._additional_classes = dict()
-    UserLoader.add_constructor('!Path', PathConstructor())
-    UserLoader._additional_classes[Path] = '!Path'
+    # the tag cannot be that of a user class, as it contains a dot
+    UserLoader.add_constructor('!pathlib.Path', PathConstructor())
+    UserLoader._additional_classes[Path] = '!pathlib.Path'
 
     additional_types = (Path,)
 
